@@ -170,6 +170,25 @@ Theorem token_only_after_successful_exchange :
   exists tok v, tok <> [] /\ cb_exch i = ExOk tok /\ co_trace o = [(cb_code i, v)] /\ co_status o = 302.
 Proof. exact token_leaves_only_after_exchange. Qed.
 
+(* Where the bearer goes, for an IdP token of ANY length: it appears in Location
+   only next to the non-empty packed return URL; in the same-origin branch it is
+   never in Location but whole in the auth cookie; no token appears anywhere else
+   in the response. *)
+Theorem bearer_placement_any_size :
+  forall enc_raw dec_pad dec_raw mac parse key now i,
+  let o := callback enc_raw dec_pad dec_raw mac parse key now i in
+  co_leak o = false /\
+  (co_bearer o = true ->
+     exists text v s u r, cb_cookie i = Some text /\
+       unpack_text enc_raw dec_pad dec_raw mac key text now SESSION_MAX_AGE = Accepted v s u r /\
+       r <> [] /\ co_base o = r /\ co_auth o = None) /\
+  (forall a, co_auth o = Some a ->
+     cb_exch i = ExOk a /\ co_bearer o = false /\
+     exists text v s u, cb_cookie i = Some text /\
+       unpack_text enc_raw dec_pad dec_raw mac key text now SESSION_MAX_AGE = Accepted v s u [] /\
+       co_base o = validate_original parse u (cb_prefix i)).
+Proof. exact bearer_placement. Qed.
+
 (* (c) A non-empty result of validateReturnTo is the input itself, http(s), with a
    host, and its scheme+hostname match an allowlist entry (with the port when the
    entry names one) or it is http localhost — relative to what url.Parse returned. *)
